@@ -165,6 +165,11 @@ def build_vocab(case):
         v = spa.Vocabulary(case["vd"], strict=False)
         for i, r in enumerate(vs):
             v.add(f"K{i}", np.array(r, dtype=float))
+            if i == 0 and len(vs) % 2 == 1:
+                try:                     # history: a refused addition (wrong length) lies between the entries
+                    v.add("Refused", np.ones(case["vd"] + 1))
+                except Exception:  # noqa: BLE001
+                    pass
         return v
     if f == "array2":
         return np.array(vs, dtype=_dt(case)).reshape(len(vs), case["vd"])
@@ -384,8 +389,13 @@ def sim_cases(ctx, tier):
 # --------------------------------------------------------------------------
 def build_text_vocab(case):
     v = spa.Vocabulary(case["d"], strict=True)
-    for k, r in zip(case["keys"], case["vectors"]):
+    for i, (k, r) in enumerate(zip(case["keys"], case["vectors"])):
         v.add(k, np.array(r, dtype=float))
+        if i == 0 and len(case["keys"]) % 2 == 0:
+            try:                         # history: a refused addition (wrong length) lies between the entries
+                v.add("Refused", np.ones(case["d"] + 1))
+            except Exception:  # noqa: BLE001
+                pass
     return v
 
 
